@@ -114,6 +114,7 @@ def main():
     ap.add_argument('--patch')
     ap.add_argument('--props', default='')
     ap.add_argument('--md', help='write a markdown table here')
+    ap.add_argument('-v', action='store_true', help='print the first reported violations')
     a = ap.parse_args()
     os.makedirs(WORK, exist_ok=True)
     rows = []
@@ -148,6 +149,12 @@ def main():
                 good = rc == 0 and not viol
             verdict = {1: 'VIOLATION', 0: 'silent'}.get(rc, f'exit {rc}')
             print(f'{name:40s} {prop} suite={suite} check={verdict} ({dt:.1f}s) expect={expect} -> {"ok" if good else "UNEXPECTED"}')
+            if a.v:
+                ls = out.splitlines()
+                for i, l in enumerate(ls):
+                    if l.startswith('VIOLATION '):
+                        print('\n'.join('    ' + x[:600] for x in ls[i:i + 5]))
+                        break
             if not good:
                 bad += 1
                 print(out[-3000:])
